@@ -217,8 +217,8 @@ CLAIMED = {
              "reference chown (Memfs/RefineChown.v); and for whole histories (Memfs/RefineHistory.v): a reference filesystem working on the flat tree "
              "alone (resolving its own arguments against the tree's cwd) such that from every well-formed kind-sound state - the fresh "
              "filesystem in particular - ANY history of mkfile, mkdir_p / mkdir_m, write_all / write_lines, append_all / append_line / append_lines, read_all / read_lines, "
-             "remove, remove_all (off the root), symlink, readlink / readlink_abs, move_p (Memfs/RefineMove.v), set_cwd, cwd, root, abs, chown without follow, chmod with both octal values and without follow "
-             "(Memfs/RefineChmod.v), mkfile_m, the listing helpers paths / dirs / files / all_paths / all_dirs / all_files (Memfs/RefineList.v: the qualifying paths "
+             "remove, remove_all (off the root), symlink, readlink / readlink_abs, move_p (Memfs/RefineMove.v), set_cwd, cwd, root, abs, chown without follow, chmod without follow, octal or symbolic "
+             "(Memfs/RefineChmod.v, RefineChmodSym.v), mkfile_m, the listing helpers paths / dirs / files / all_paths / all_dirs / all_files (Memfs/RefineList.v: the qualifying paths "
              "below the directory in increasing lexicographic order, stated without a traversal), copy of a link-free source to a fresh destination or of a "
              "directory into an existing one (Memfs/RefineCopy.v), entries() sorted by name without follow / dirs_first / files_first / contents_first "
              "(Memfs/RefineEntries.v) and the queries "
